@@ -17,3 +17,13 @@ for d in (1, 2, 3):
     U('C19', 'C19_rebase.cpp', defines=dict(DIM=d, NB=3, SB=6), unwind=6, timeout=900)
 for d in (1, 2):
     U('C19', 'C02_iter.cpp', name='C19_elements_rebased_DIM%d' % d, defines=dict(DIM=d, NB=3, SB=6, EFB=2), entries=['elements_shape', 'elements_index', 'elements_movement'], unwind=6, timeout=900)
+
+# ---- C20 debug contracts
+# (2) misuse must die in a library assertion before any out-of-bounds access
+for d in (1, 2, 3):
+    U('C20', 'C20_mustfire.cpp', defines=dict(DIM=d, NB=3, SB=4), unwind=6, timeout=900, mustfire=True)
+# (1) silent on valid use: the valid-use harnesses of C01/C02 (DIM=2), every LIBASSERT property proved unreachable-to-fail in the default build
+# (3) assertions change nothing: the same harnesses compiled with -DNDEBUG and -DBOOST_MULTI_ASSERT_DISABLE satisfy the same functional specification
+for cfg, dd in (('default', {}), ('ndebug', {'NDEBUG': 1}), ('assert_disable', {'BOOST_MULTI_ASSERT_DISABLE': 1})):
+    U('C20', 'C01_step.cpp', name='C20_%s_C01_step_DIM2' % cfg, defines=dict(DIM=2, NB=3, SB=4, **dd), unwind=6, timeout=900)
+    U('C20', 'C02_iter.cpp', name='C20_%s_C02_iter_DIM2' % cfg, defines=dict(DIM=2, NB=3, SB=4, **dd), unwind=6, timeout=900)
